@@ -585,6 +585,9 @@ def _node_preconditions(model, cname):
             if isinstance(n, ast.Compare) and len(n.ops) == 1 and isinstance(n.ops[0], ast.In) and isinstance(n.left, ast.Attribute) and n.left.attr == 'dtype' and src(n.left.value).startswith('self.') \
                     and isinstance(n.comparators[0], (ast.Tuple, ast.List, ast.Set)):
                 pre.setdefault(src(n.left.value)[5:], {})['dtype'] = tuple(src(e) for e in n.comparators[0].elts)
+            if isinstance(n, ast.Compare) and len(n.ops) == 1 and isinstance(n.ops[0], ast.Eq) and isinstance(n.left, ast.Attribute) and n.left.attr == 'dtype' and src(n.left.value).startswith('self.') \
+                    and src(n.comparators[0]) in ('int', 'float', 'complex', 'bool') and '.' not in src(n.left.value)[5:]:
+                pre.setdefault(src(n.left.value)[5:], {})['dtype'] = (src(n.comparators[0]),)
             if isinstance(n, ast.Call) and src(n.func) == '_certainly_different':
                 t = ' '.join(src(x) for x in n.args)
                 for fld in fields:
@@ -640,16 +643,6 @@ def check_wrapped_preconditions(model, rep):
                         continue   # the operand was built by this implementation: its shape is this implementation's doing (not decided)
                     if 'ndim' in what and what['ndim'][0] == 'Eq' and not without_points:
                         continue   # lowering prepends point axes: an exact ndim is not a function-level fact
-                    if 'dtype' in what:
-                        kinds = what['dtype']
-                        reads = [g for g in ast.walk(fn) if isinstance(g, ast.If) and g.lineno < c.lineno and
-                                 any(isinstance(a, ast.Attribute) and a.attr == 'dtype' and isinstance(a.value, ast.Name) and direct.get(a.value.id) == direct[op.id] for a in ast.walk(g.test)) and
-                                 (any(isinstance(b, ast.Raise) for b in g.body) or any(isinstance(b, ast.Assign) and isinstance(b.value, ast.Call) and method_name(b.value) == 'astype' and src(b.value.args[0]) in kinds for b in g.body))]
-                        okd = bool(reads)
-                        rep.ob('R07.9', f'function:__implementations__.{fn.name}', f'{m.relpath}:{c.lineno}', okd,
-                               f'{names[0]}: evaluable.{cname} requires an element kind in ({", ".join(kinds)}) of `{op.id}`; the implementation converts or rejects other kinds first' if okd else
-                               f'{names[0]} hands the caller\'s operand `{op.id}` to evaluable.{cname}, which only asserts that its element kind is in ({", ".join(kinds)}): an integer or boolean operand, which NumPy accepts, '
-                               'is announced with a result kind but fails an internal assertion when it is lowered', statement=f'precondition-kind {cname}.{fld}@{fn.name}')
                     if not ({'ndim', 'square'} & set(what)):
                         continue
                     n += 1
@@ -665,6 +658,74 @@ def check_wrapped_preconditions(model, rep):
                            statement=f'precondition {cname}.{fld}@{fn.name}')
     if n < 6:
         raise AnalysisError(f'only {n} directly wrapped operands with asserted shape preconditions found (det, inv, eig, eigh, searchsorted expected)')
+
+
+KIND_PRESERVING = ('Array.cast', 'broadcast_arrays', 'util.deep_reduce', '_Transpose.to_end', '_Transpose.from_end', 'numpy.ravel', 'numpy.transpose', '_append_axes', '_prepend_axes')
+
+
+def check_wrapped_kinds(model, rep):
+    """R07.9 (element kinds): an evaluable node that only asserts the element kind of an operand (`self.index.dtype == int`,
+    `self.func.dtype in (float, complex)`) must never see another kind: where the kind of the operand is the caller's (the value
+    reaches the wrapper through kind-preserving steps only), the implementation tests `.dtype` of it first and raises or converts."""
+    m, regs = registrations(model)
+    n = 0
+    for fn, names in regs:
+        pos = [a.arg for a in fn.args.args]
+        kind_of = {p_: p_ for p_ in pos}
+        binds = {}
+        stmts = sorted((s_ for s_ in ast.walk(fn) if isinstance(s_, ast.Assign) and len(s_.targets) == 1), key=lambda s_: s_.lineno)
+        for s_ in stmts:
+            t, v = s_.targets[0], s_.value
+            if isinstance(t, ast.Name):
+                binds.setdefault(t.id, []).append(v)
+            srcs = set()
+            if isinstance(v, ast.Call) and (src(v.func) in KIND_PRESERVING or method_name(v) == 'astype'):
+                cand = list(v.args) + ([v.func.value] if method_name(v) == 'astype' and isinstance(v.func, ast.Attribute) else [])
+                if isinstance(t, ast.Name):
+                    srcs = {kind_of[x.id] for a in cand for x in ast.walk(a) if isinstance(x, ast.Name) and x.id in kind_of}
+                    if len(srcs) == 1:
+                        kind_of[t.id] = srcs.pop()
+                        continue
+                elif isinstance(t, ast.Tuple) and src(v.func) == 'broadcast_arrays':
+                    for te, ae in zip(t.elts, v.args):
+                        if isinstance(te, ast.Starred) or isinstance(ae, ast.Starred):
+                            break
+                        if isinstance(te, ast.Name) and isinstance(ae, ast.Name) and ae.id in kind_of:
+                            kind_of[te.id] = kind_of[ae.id]
+                    continue
+            for x in ast.walk(t):
+                if isinstance(x, ast.Name) and x.id not in pos:
+                    kind_of.pop(x.id, None)
+        for c in ast.walk(fn):
+            if not (isinstance(c, ast.Call) and src(c.func) in ('_Wrapper', '_Wrapper.broadcasted_arrays') and c.args):
+                continue
+            for cname, skip in _wrapped_nodes(model, c.args[0], binds):
+                fields, pre = _node_preconditions(model, cname)
+                for fld, what in pre.items():
+                    if 'dtype' not in what or fld not in fields:
+                        continue
+                    i = fields.index(fld) - skip
+                    if not 0 <= i < len(c.args) - 1:
+                        continue
+                    op = c.args[1 + i]
+                    if isinstance(op, ast.Call) and src(op.func) == '_WithoutPoints':
+                        op = op.args[0]
+                    if not (isinstance(op, ast.Name) and op.id in kind_of):
+                        continue   # the operand's kind is fixed by this implementation (a constant, a Range, a converted value)
+                    p_ = kind_of[op.id]
+                    n += 1
+                    kinds = what['dtype']
+                    reads = [g for g in ast.walk(fn) if isinstance(g, ast.If) and g.lineno < c.lineno and
+                             any(isinstance(a, ast.Attribute) and a.attr == 'dtype' and isinstance(a.value, ast.Name) and kind_of.get(a.value.id) == p_ for a in ast.walk(g.test)) and
+                             (any(isinstance(b, ast.Raise) for b in ast.walk(g)) or any(isinstance(b, ast.Assign) and isinstance(b.value, ast.Call) and method_name(b.value) == 'astype' for b in g.body))]
+                    ok = bool(reads)
+                    rep.ob('R07.9', f'function:__implementations__.{fn.name}', f'{m.relpath}:{c.lineno}', ok,
+                           f'{names[0]}: evaluable.{cname} requires element kind {"/".join(kinds)} of `{op.id}` (kind of the caller\'s `{p_}`); the implementation tests the kind and converts or rejects first' if ok else
+                           f'{names[0]} hands `{op.id}`, whose element kind is that of the caller\'s `{p_}`, to evaluable.{cname}, which only asserts that it is {"/".join(kinds)}: another kind is announced with a result '
+                           'but fails an internal assertion when the expression is lowered (where NumPy either accepts it - booleans as 0/1, integers as reals - or rejects it when the call is made)',
+                           statement=f'precondition-kind {cname}.{fld}@{fn.name}')
+    if n < 4:
+        raise AnalysisError(f'only {n} wrapped operands with asserted element kinds found (det, inv, choose, take expected)')
 
 
 def _wrapped_nodes(model, target, binds, depth=0):
@@ -714,17 +775,85 @@ def check_getitem(model, rep):
     takes = [c for c in ast.walk(loop) if isinstance(c, ast.Call) and src(c.func) in ('numpy.take', 'take')]
     arr = {src(c.args[0]) for c in takes}
     axis = {src(c.args[2]) for c in takes if len(c.args) > 2}
-    extra = carried - arr - axis
-    # a test anywhere in the method that looks at the dimension of the items (numpy.ndim(it), isinstance(it, (list, numpy.ndarray, Array)) ...) and raises or branches
-    item = src(loop.target)
-    pre = [s_ for s_ in ast.walk(f.node) if isinstance(s_, (ast.If, ast.Assert, ast.IfExp)) and s_.lineno < takes[0].lineno and
-           any(isinstance(c, ast.Call) and src(c.func) in ('numpy.ndim', 'isinstance', 'numpy.shape', 'numpy.asarray') for c in ast.walk(s_.test)) and
-           not all(isinstance(c, ast.Call) and src(c.func) == 'isinstance' and src(c.args[1]) in ('tuple', 'slice') for c in ast.walk(s_.test) if isinstance(c, ast.Call))]
+    extra = carried - arr - axis - {n.id for n in ast.walk(loop.target) if isinstance(n, ast.Name)}   # rebinding the current item is not state carried to the next item
+    # a test OUTSIDE the item loop that looks at all items together: a comprehension / generator over the subscript tuple that inspects
+    # the dimension or type of the items (a test on the single current item inside the loop cannot count index arrays)
+    inside = {id(n) for n in ast.walk(loop)}
+    item_tuple = {src(loop.iter).split(' ')[0], 'item'}
+    pre = []
+    for s_ in ast.walk(f.node):
+        if not isinstance(s_, (ast.If, ast.Assert, ast.IfExp, ast.Assign)) or id(s_) in inside:
+            continue
+        probe = s_.test if hasattr(s_, 'test') else s_.value
+        for g in ast.walk(probe):
+            if isinstance(g, (ast.GeneratorExp, ast.ListComp, ast.SetComp)) and any(src(c.iter).split(' ')[0] in item_tuple or src(c.iter) == 'item' for c in g.generators) and \
+                    any(isinstance(c, ast.Call) and src(c.func) in ('numpy.ndim', 'isinstance', 'numpy.shape', 'numpy.asarray') for c in ast.walk(g)):
+                pre.append(s_)
     ok = bool(extra) or bool(pre)
     rep.ob('R07.10', f.key, f.where(loop), ok, 'the subscript loop takes note of index arrays seen' if ok else
            f'the subscript loop carries only {sorted(carried)} from item to item and applies `{src(takes[0])}` to each item on its own: two or more index arrays in one subscript are applied one after the other '
            f'(outer indexing, a[[0,1],[0,1]] of a (2,3) array has shape (2,2)) where NumPy broadcasts them against each other (shape (2,)) and rejects index arrays that do not broadcast',
            statement='index-arrays-handled-jointly')
+
+
+def check_boolean_cases(model, rep, oracle):
+    """R07.11: NumPy's behaviour for boolean operands where the generic realisation cannot deliver it.  (a) functions the oracle marks
+    bool=identity (absolute) return the operand under a test of its kind, because the chain x*sign(x) has no boolean loop;
+    (b) the contractions (dot, matmul, vdot, einsum) keep booleans boolean, whereas numpy.sum counts them: the reduction of the
+    product goes through a reducer that tests for the boolean kind; (c) a boolean array used as subscript is a mask, not the integer
+    indices 0 and 1: the index-array branch of Array.__getitem__ tests for the boolean kind before numpy.take."""
+    m, regs = registrations(model)
+    by = {fn.name: (fn, names) for fn, names in regs}
+    for name, spec in oracle['functions'].items():
+        if spec.get('bool') != 'identity':
+            continue
+        hit = [(fn, names) for fn, names in regs if f'numpy.{name}' in names]
+        if not hit:
+            raise AnalysisError(f'numpy.{name} registration not found')
+        fn, names = hit[0]
+        ok = any(isinstance(g, ast.If) and isinstance(g.test, ast.Compare) and src(g.test).replace(' ', '').endswith('.dtype==bool') and
+                 any(isinstance(b, ast.Return) and isinstance(b.value, ast.Name) and b.value.id == src(g.test.left).split('.')[0] for b in g.body) for g in fn.body)
+        rep.ob('R07.11', f'function:__implementations__.{fn.name}', f'{m.relpath}:{fn.lineno}', ok, f'numpy.{name} of a boolean operand is the operand (tested before the generic chain)' if ok else
+               f'numpy.{name} sends boolean operands down the generic chain, which multiplies by the sign: NumPy returns the operand, here a boolean result is announced and evaluation fails (numpy.sign has no boolean loop)',
+               statement=f'bool-identity {name}')
+    mod = model.module('function')
+    for name in oracle['contractions']:
+        if name not in by:
+            raise AnalysisError(f'numpy.{name} implementation not found')
+        fn, names = by[name]
+        own_test = any(isinstance(n, ast.Compare) and 'dtype' in src(n) and 'bool' in src(n) for n in ast.walk(fn))
+        bad = None
+        nred = 0
+        for c in ast.walk(fn):
+            if not isinstance(c, ast.Call):
+                continue
+            mn = method_name(c)
+            operand = c.func.value if (mn == 'sum' and isinstance(c.func, ast.Attribute) and src(c.func.value) != 'numpy') else (c.args[0] if c.args else None)
+            if operand is None or not any(isinstance(x, ast.BinOp) and isinstance(x.op, ast.Mult) or (isinstance(x, ast.Call) and src(x.func) == 'util.product') for x in ast.walk(operand)):
+                continue
+            if mn == 'sum':
+                nred += 1
+                if not own_test:
+                    bad = c
+            elif isinstance(c.func, ast.Name) and c.func.id in mod.functions:
+                nred += 1
+                helper = mod.functions[c.func.id]
+                if not any(isinstance(n, ast.Compare) and 'dtype' in src(n) and 'bool' in src(n) for n in ast.walk(helper.node)):
+                    bad = c
+        if nred == 0:
+            raise AnalysisError(f'numpy.{name}: no reduction of a product found')
+        rep.ob('R07.11', f'function:__implementations__.{name}', f'{m.relpath}:{(bad or fn).lineno}', bad is None, f'numpy.{name}: {nred} reduction(s) of the product go through a reducer that keeps booleans boolean' if bad is None else
+               f'`{src(bad)[:70]}` reduces the product with a sum that counts booleans: numpy.{name} of boolean operands is the boolean or of ands in NumPy, here it is the integer number of common true entries',
+               statement=f'bool-contraction {name}')
+    gi = model.func('function:Array.__getitem__')
+    takes = [c for c in ast.walk(gi.node) if isinstance(c, ast.Call) and src(c.func) in ('numpy.take', 'take')]
+    if not takes:
+        raise AnalysisError('Array.__getitem__: numpy.take not found')
+    tests = [g for g in ast.walk(gi.node) if isinstance(g, ast.If) and g.lineno < takes[0].lineno and 'bool' in src(g.test) and 'dtype' in src(g.test)]
+    ok = bool(tests)
+    rep.ob('R07.11', gi.key, gi.where(takes[0]), ok, 'a boolean subscript is recognised as a mask before the index-array branch applies numpy.take' if ok else
+           f'`{src(takes[0])}` is applied to every non-slice item without a test for the boolean kind: a boolean array used as subscript is applied as the integer indices 0 and 1 (a[[True,False,True]] gives a[[1,0,1]]) '
+           'where NumPy selects the positions at which the mask is true', statement='bool-mask')
 
 
 def _ord(fn, node):
@@ -763,6 +892,7 @@ def run(model, rep, tier):
     rep.rule('R07.7', 'non-broadcasting functions of two operands (dot, matmul, vdot) compare the operand shapes before the broadcasting product')
     rep.rule('R07.9', 'shape preconditions asserted by a wrapped evaluable node are tested (raise) by the wrapping NumPy implementation')
     rep.rule('R07.10', 'index arrays of one subscript are handled jointly, as NumPy does')
+    rep.rule('R07.11', 'boolean operands: absolute is the identity, contractions stay boolean, a boolean subscript is a mask')
     rep.rule('R07.8', 'every _Transpose is constructed from normalised, permutation-checked axes')
     rep.trusted_base.append('oracles/numpy_api.json (NumPy documented semantics)')
     check_chains(model, rep, oracle)
@@ -771,7 +901,9 @@ def run(model, rep, tier):
     check_contractions(model, rep)
     check_axes(model, rep)
     check_wrapped_preconditions(model, rep)
+    check_wrapped_kinds(model, rep)
     check_getitem(model, rep)
+    check_boolean_cases(model, rep, oracle)
     check_namespace_table(model, rep, oracle)
     rep.require('R07.1', 55)
     rep.require('R07.2', 40)
